@@ -50,7 +50,7 @@ PROPERTIES["C12"] = dict(
     ],
 )
 
-PIPE_FILES = ["pipeline/zz_verif_pipe.go", "pipeline/zz_verif_p08.go", "pipeline/zz_verif_p01.go", "pipeline/zz_verif_p01b.go", "pipeline/zz_verif_p01x.go", "pipeline/zz_verif_p01r.go", "pipeline/zz_verif_p13.go", "pipeline/zz_verif_p10.go", "pipeline/zz_verif_p09.go", "pipeline/zz_verif_p14.go", "pipeline/zz_verif_p12.go", "pipeline/zz_verif_p20.go", "pipeline/zz_verif_p07.go", "config::config/zz_verif_export.go", "annotation::annotation/zz_verif_export.go", "assertion/global::global/zz_verif_export.go", "assertion/function/functioncontracts::functioncontracts_export/zz_verif_export.go", "assertion/function::function_export/zz_verif_export.go"]
+PIPE_FILES = ["pipeline/zz_verif_pipe.go", "pipeline/zz_verif_p08.go", "pipeline/zz_verif_p01.go", "pipeline/zz_verif_p01b.go", "pipeline/zz_verif_p01x.go", "pipeline/zz_verif_p01r.go", "pipeline/zz_verif_p13.go", "pipeline/zz_verif_p10.go", "pipeline/zz_verif_p10r.go", "pipeline/zz_verif_p09.go", "pipeline/zz_verif_p14.go", "pipeline/zz_verif_p12.go", "pipeline/zz_verif_p20.go", "pipeline/zz_verif_p07.go", "config::config/zz_verif_export.go", "annotation::annotation/zz_verif_export.go", "assertion/global::global/zz_verif_export.go", "assertion/function/functioncontracts::functioncontracts_export/zz_verif_export.go", "assertion/function::function_export/zz_verif_export.go"]
 INFER_FILES = ["inference/zz_verif_c05.go", "inference/zz_verif_c05l2.go", "inference/zz_verif_c06.go", "inference/zz_verif_c04.go", "inference/zz_verif_c15.go", "inference/zz_verif_c15m.go", "inference/zz_verif_c08.go", "inference/zz_verif_registry.go",
                "annotation::annotation/zz_verif_export.go"]
 
@@ -561,3 +561,6 @@ PROPERTIES["C07"]["runs"] += [
     dict(pkg="accumulation", files=PIPE_FILES, entry="Harness_P07", name="_contracts", quick=dict(params=dict(PAIRS=0, CONTRACTS=1)), thorough=dict(params=dict(PAIRS=0, CONTRACTS=1)), args=dict(sample_every=7, max_samples=16)),
 ]
 PROPERTIES["C07"]["bounds"]["quick"] += "; each template again with hand-written contracts in the package (on a variadic, a parameterless and a one-parameter function), contract collection over the real SSA and trigger duplication switched on"
+
+PROPERTIES["C10"]["runs"] += [dict(pkg="accumulation", files=PIPE_FILES, entry="Harness_P10R", args=dict(sample_every=3, max_samples=12))]
+PROPERTIES["C10"]["bounds"]["quick"] += "; P10R: 36 programs (result annotation x receiver spelled anonymous / blank / named x body x use), reported iff the annotated result site demands it"
